@@ -45,8 +45,7 @@ class MultiTag(BaseTag):
     def positions(self, da):
         if da is None:
             raise TypeError("MultiTag.positions cannot be None.")
-        if "positions" in self._h5group:
-            del self._h5group["positions"]
+        # create_link replaces an existing link, after looking at the target
         self._h5group.create_link(da, "positions")
         if self.file.auto_update_timestamps:
             self.force_updated_at()
